@@ -60,6 +60,14 @@ TrMtOp ==
        /\ Chk("C12", "proxy_call_and_raw_json_have_the_same_result", l, E.proxy.res = E.raw.res)
        /\ Chk("C12", "handler_error_surfaces_as_the_contracts_error_value", l, ResMatches(E.proxy.res, E.op))
        /\ Chk("C12", "chain_state_is_what_the_handlers_left", l, ViewMatches(E.proxy.view, ctr') /\ ViewMatches(E.raw.view, ctr'))
+       \* either way the operation runs the handler it names as often: once when it gets that far (the result is the handler's own), and
+       \* the same number of times on both chains whatever happens
+       /\ Chk("C12", "proxy_call_runs_the_handler_as_often_as_the_raw_json", l, E.ran.proxy = E.ran.raw)
+       /\ Chk("C12", "an_operation_answered_by_its_handler_ran_it_exactly_once", l,
+              ResMatches(E.proxy.res, E.op) => E.ran.proxy = RunsOf(E.op))
+       \* (C02, through a chain: a message dispatched on the contract invokes its handler exactly once -- on either chain)
+       /\ Chk("C02", "dispatch_through_a_chain_invokes_the_handler_exactly_once", l,
+              (ResMatches(E.proxy.res, E.op) => E.ran.proxy = RunsOf(E.op)) /\ (ResMatches(E.raw.res, E.op) => E.ran.raw = RunsOf(E.op)))
        \* the harness's own helpers (block information, code information): the chain stands where the history moved it
        /\ Chk("C12", "block_helpers_move_the_chain_as_the_underlying_chain_is_moved", l,
               E.proxy.view.height = ToString(12345 + blk') /\ E.raw.view.height = ToString(12345 + blk'))
